@@ -754,9 +754,13 @@ Move Position::parse_san(const std::string& str)
     Move* begin = movelist;
     Move* end = generate_moves(*this, color(), begin);
 
-    if (str == "0-0" || str == "O-O")
+    // castling may carry a check or mate suffix
+    std::string castling_str = str;
+    if (!castling_str.empty() && (castling_str.back() == '+' || castling_str.back() == '#'))
+        castling_str.pop_back();
+    if (castling_str == "0-0" || castling_str == "O-O")
         return std::find(begin, end, KING_CASTLING_MOVE) != end ? KING_CASTLING_MOVE : NO_MOVE;
-    if (str == "0-0-0" || str == "O-O-O")
+    if (castling_str == "0-0-0" || castling_str == "O-O-O")
         return std::find(begin, end, QUEEN_CASTLING_MOVE) != end ? QUEEN_CASTLING_MOVE : NO_MOVE;
 
     std::smatch match;
